@@ -1,8 +1,8 @@
 """C14 - bSei reward pool solvent and complete: structural clauses (DESIGN 6, C14)."""
 from ..callgraph import explore, storage_effects, message_effects, site_guarded
 from ..expr import show, arith_args
-from ..ledger import ledger_entries
-from .common import entry, variant_env, stored, where
+from ..ledger import ledger_entries, lost_updates
+from .common import entry, msg_enum, variant_env, stored, where
 from .msgs import vec_elems, coin_parts, is_zero_fact
 from .reward_common import HOLDERS, RSTATE, RWCFG, LEDGER, unratio, split_sum, accrual_roles, holder_label, is_one
 
@@ -17,7 +17,19 @@ def run(prog, world, sem, rep):
              "prev_reward_balance := that balance; global_index += from_ratio(new rewards, State.total_balance); nothing is written when "
              "total_balance is zero", 4)
 
+    rep.rule("C14.d", "no lost update of the reward contract's State / Config: in every execute variant a value saved to a single-value cell that "
+             "was computed from an earlier load has no other write of that cell (directly or in a callee) between the load and the save", 6)
+
     ex = entry(prog, "reward")
+    adt_path0, adt0 = msg_enum(prog, ex)
+    for vn in [x["name"] for x in adt0["variants"]]:
+        lu = lost_updates(sem, storage_effects(sem, explore(sem, ex, variant_env(prog, ex, vn))))
+        det = "every saved single-value cell is computed from a load with no write in between"
+        if lu:
+            (sv, sbb, A, lbb, wv_, wbb, cell) = lu[0]
+            det = "%s saved at %s is computed from the load at line %d of %s, but %s writes the same cell in between: the save writes the stale copy back" % (
+                cell.split("::")[-1], where(sv.body, sbb), A.body.blocks[lbb].term.line, A.body.path, wv_.body.path)
+        rep.ob("C14.d", "reward::%s saves no stale copy of a single-value cell" % vn, not lu, det, where(ex), key="C14.d | reward::%s" % vn)
     # ---------------------------------------------------------------- C14.a
     vs = explore(sem, ex, variant_env(prog, ex, "ClaimRewards"))
     eff = storage_effects(sem, vs)
